@@ -123,6 +123,11 @@ func TestC03_LimiterBound(t *testing.T) {
 			t.Fatalf("rate set refused: %v", err)
 		}
 		nsrc := rapid.IntRange(1, 3).Draw(t, "nsrc")
+		// a table that is exactly as large as the number of sources it has to hold (8-16 of them)
+		manySources := rapid.IntRange(0, 4).Draw(t, "manySources") == 0
+		if manySources {
+			nsrc = rapid.IntRange(8, 16).Draw(t, "nsrcMany")
+		}
 		capacity := nsrc + rapid.IntRange(0, 2).Draw(t, "spare")
 		phase := time.Duration(rapid.Int64Range(0, int64(time.Second)-1).Draw(t, "phase"))
 		clock.Freeze(epoch.Add(phase))
@@ -130,12 +135,12 @@ func TestC03_LimiterBound(t *testing.T) {
 		served := 0
 		next := http.HandlerFunc(func(w http.ResponseWriter, r *http.Request) { served++; w.WriteHeader(200) })
 		opts := []ratelimit.TokenLimiterOption{}
-		if rapid.Bool().Draw(t, "explicitCapacity") {
+		if manySources || rapid.Bool().Draw(t, "explicitCapacity") {
 			opts = append(opts, ratelimit.Capacity(capacity))
 		}
 		// a third of the limiters identify the source by the stock client.ip variable: one client
 		// address (IPv4, IPv6, IPv6 with zone) is one source whatever connection (port) it uses
-		byIP := rapid.IntRange(0, 2).Draw(t, "byClientIP") == 0
+		byIP := !manySources && rapid.IntRange(0, 2).Draw(t, "byClientIP") == 0
 		var extractor utils.SourceExtractor = gen.HeaderExtractor
 		if byIP {
 			if extractor, err = utils.NewExtractor("client.ip"); err != nil {
